@@ -106,6 +106,29 @@ def issueReqs (s : State) (c : CtxId) (x : Ctx) (el : List (Addr × Nat)) (i : N
     let s1 := { s with reqs := Map.set s.reqs r q }
     issueReqs (addActive s1 x.svc p (s.height + x.timeout) r) c x rest (i + 1)
 
+/-- a batch is issued: request records and markers, the counter advanced, the expiry queued -/
+def issueBatch (s : State) (bank' : Bank) (c : CtxId) (x : Ctx) (el : List (Addr × Nat)) (ep : List Effect) :
+    State × List Effect :=
+  (addExpQ (setCtx (issueReqs { s with bank := bank' } c x el 0) c
+      { x with batch := x.batch + 1, bstate := .running, respN := 0, reqN := el.length, bthr := x.thr })
+    c (s.height + x.timeout),
+   ep ++ [.evReqs c el.length])
+
+/-- the outcome for a running context that is due: issue (after the consumer has paid), pause for lack
+    of funds (`OnRequestContextPaused`), or skip (`SkipCurrentRequestBatch`) -/
+def startOrSkip (s : State) (c : CtxId) (x : Ctx) : State × List Effect :=
+  if (eligible s x).length > 0 ∧ (eligible s x).length ≥ x.thr then
+    if x.super then issueBatch s s.bank c x (eligible s x) []
+    else match bankSend s.bank x.cons s.cfg.escrow (sumPrices (eligible s x)) with
+      | some b => issueBatch s b c x (eligible s x)
+          (if sumPrices (eligible s x) = 0 then [] else [.transfer x.cons s.cfg.escrow (sumPrices (eligible s x))])
+      | none =>
+        (setCtx s c { x with bstate := .completed, state := .paused },
+         [.xferFail x.cons s.cfg.escrow (sumPrices (eligible s x)), if x.mod ≠ "" then .statecb c else .ev "pause_context" c])
+  else
+    (addExpQ (setCtx s c { x with batch := x.batch + 1, bstate := .running, reqN := 0, respN := 0, bthr := x.thr })
+      c (s.height + x.timeout), [])
+
 /-- `newRequestBatchHandler` -/
 def newBatch (s : State) (c : CtxId) : HRes :=
   if (s.height, c) ∉ s.newQ then HRes.pure s
@@ -116,31 +139,7 @@ def newBatch (s : State) (c : CtxId) : HRes :=
       -- the repeated total has been reached (paused in the last batch, started afterwards)
       ⟨delNewQ (delCtx s c) c s.height, [.ev "complete_context" c], none⟩
     else if x.state ≠ .running then HRes.pure (delNewQ s c s.height)
-    else
-      let el := eligible s x
-      let (s1, e1) : State × List Effect :=
-        if el.length > 0 ∧ el.length ≥ x.thr then
-          let T := sumPrices el
-          let pay : Option (Bank × List Effect) :=
-            if x.super then some (s.bank, [])
-            else match bankSend s.bank x.cons s.cfg.escrow T with
-              | some b => some (b, if T = 0 then [] else [.transfer x.cons s.cfg.escrow T])
-              | none => none
-          match pay with
-          | none =>
-            -- `OnRequestContextPaused`
-            let x' := { x with bstate := .completed, state := .paused }
-            (setCtx s c x', [.xferFail x.cons s.cfg.escrow T, if x.mod ≠ "" then .statecb c else .ev "pause_context" c])
-          | some (bank', ep) =>
-            let s0 := { s with bank := bank' }
-            let s1 := issueReqs s0 c x el 0
-            let x' := { x with batch := x.batch + 1, bstate := .running, respN := 0, reqN := el.length, bthr := x.thr }
-            (addExpQ (setCtx s1 c x') c (s.height + x.timeout), ep ++ [.evReqs c el.length])
-        else
-          -- `SkipCurrentRequestBatch`
-          let x' := { x with batch := x.batch + 1, bstate := .running, reqN := 0, respN := 0, bthr := x.thr }
-          (addExpQ (setCtx s c x') c (s.height + x.timeout), [])
-      ⟨delNewQ s1 c s.height, e1 ++ [.ev "new_batch" c], none⟩
+    else ⟨delNewQ (startOrSkip s c x).1 c s.height, (startOrSkip s c x).2 ++ [.ev "new_batch" c], none⟩
 
 /-- context ids queued at height `h`, ascending -/
 def queuedAt (q : FSet (Int × CtxId)) (h : Int) : List CtxId :=
